@@ -57,6 +57,11 @@ class KeyFacts:
 
     def is_cache_map(self, e) -> tuple[str, str] | None:
         """(map name, owner) if e is `<owner>[._cache].<map>` of a Cache"""
+        # a local that only ever holds one of the maps itself (`name_to_uuid = table._cache.name_to_uuid`)
+        if isinstance(e, ast.Name) and not self._is_param(e.id):
+            vals = list(self._assigned_values(e.id))
+            if len(vals) == 1 and isinstance(vals[0], ast.Attribute) and vals[0].attr in MAPS:
+                e = vals[0]
         if not isinstance(e, ast.Attribute) or e.attr not in MAPS:
             return None
         # a local that only ever holds `<table>._cache` (also `a, b = x._cache, y._cache`) stands for that cache
@@ -112,6 +117,18 @@ class KeyFacts:
         out = []
         p = at
         while p is not None and p is not parent(self.func):
+            # parameter of a lambda handed to filter / map / filterfalse / sorted(key=..): it ranges over the iterable argument
+            if isinstance(p, ast.Lambda) and [a.arg for a in p.args.args] == [name]:
+                call_ = parent(p)
+                if isinstance(call_, ast.Call):
+                    fname = (dotted(call_.func) or "").split(".")[-1]
+                    its = []
+                    if fname in ("filter", "filterfalse", "map", "takewhile", "dropwhile") and len(call_.args) == 2 and call_.args[0] is p:
+                        its = [call_.args[1]]
+                    elif fname in ("sorted", "min", "max") and any(k.arg == "key" and k.value is p for k in call_.keywords) and call_.args:
+                        its = [call_.args[0]]
+                    for it_ in its:
+                        out += self._elem_of(it_, 0, 1)
             gens = []
             if isinstance(p, (ast.ListComp, ast.SetComp, ast.DictComp, ast.GeneratorExp)):
                 gens = p.generators
